@@ -909,27 +909,53 @@ Qed.
 End OtfadKeyBlob.
 
 (* ================================================================== "address only" instances ========== *)
-Lemma grid_address_only_l (g : Z -> list N -> res (list N)) unit q base x y :
-  (0 < unit)%nat -> base mod Z.of_nat unit = 0 -> length x = (q * unit)%nat ->
+(* cutting the image anywhere on the absolute grid *)
+Lemma grid_pieces_app {A} (f : Z -> list N -> A) unit base x y :
+  (0 < unit)%nat -> (base + zlen x) mod Z.of_nat unit = 0 ->
+  grid_pieces f unit base (x ++ y) = grid_pieces f unit base x ++ grid_pieces f unit (base + zlen x) y.
+Proof.
+  intros Hu Hcut. set (U := Z.of_nat unit) in *. assert (HU : 0 < U) by (unfold U; lia).
+  rewrite (grid_pieces_aligned f unit (base + zlen x) y Hu Hcut).
+  set (m := (- base) mod U).
+  pose proof (Z.mod_pos_bound (- base) U HU) as Hm. fold m in Hm.
+  pose proof (neg_mod_aligns base U HU) as Hal. fold m in Hal.
+  pose proof (zlen_nonneg x) as Hx0.
+  assert (Hdiv : (U | zlen x - m)).
+  { replace (zlen x - m) with ((base + zlen x) - (base + m)) by lia.
+    apply Z.divide_sub_r; apply Z.mod_divide; try lia; assumption. }
+  destruct Hdiv as [z Hz].
+  assert (Hz0 : 0 <= z) by nia.
+  assert (Hxm : zlen x = m + Z.of_nat (Z.to_nat z * unit)) by (rewrite Nat2Z.inj_mul, Z2Nat.id by lia; fold U; lia).
+  unfold grid_pieces, grid_first. fold U. fold m.
+  rewrite zlen_app. pose proof (zlen_nonneg y) as Hy0.
+  rewrite !Z.min_r by lia.
+  assert (Hmx : (Z.to_nat m <= length x)%nat) by (unfold zlen in Hxm; lia).
+  rewrite firstn_app, skipn_app. replace (Z.to_nat m - length x)%nat with 0%nat by lia.
+  cbn [firstn skipn]. rewrite app_nil_r.
+  rewrite <- app_assoc. f_equal.
+  rewrite (pieces_app f unit (Z.to_nat z)); try assumption.
+  - f_equal. f_equal. rewrite Z2Nat.id by lia. unfold zlen. rewrite skipn_length.
+    unfold zlen in Hxm. lia.
+  - rewrite skipn_length. unfold zlen in Hxm. lia.
+Qed.
+
+Lemma grid_address_only_l (g : Z -> list N -> res (list N)) unit base x y :
+  (0 < unit)%nat -> (base + zlen x) mod Z.of_nat unit = 0 ->
   seq_concat (grid_pieces g unit base (x ++ y)) =
   match seq_concat (grid_pieces g unit base x) with
   | Ok cx => match seq_concat (grid_pieces g unit (base + zlen x) y) with Ok cy => Ok (cx ++ cy) | Err k => Err k end
   | Err k => Err k
   end.
-Proof.
-  intros Hu Hal Hx. rewrite !grid_pieces_aligned; try assumption.
-  - now apply (walk_address_only_l g unit q).
-  - unfold zlen. rewrite Hx, Nat2Z.inj_mul. rewrite Z_mod_plus_full. exact Hal.
-Qed.
+Proof. intros Hu Hcut. rewrite grid_pieces_app by assumption. apply seq_concat_app. Qed.
 
-Lemma otfad_address_only_l (E : cipher) blobs swap base x y q :
-  base mod 1024 = 0 -> length x = (q * 1024)%nat ->
+Lemma otfad_address_only_l (E : cipher) blobs swap base x y :
+  (base + zlen x) mod 1024 = 0 ->
   otfad_encrypt_image E blobs (x ++ y) base swap =
   match otfad_encrypt_image E blobs x base swap with
   | Ok cx => match otfad_encrypt_image E blobs y (base + zlen x) swap with Ok cy => Ok (cx ++ cy) | Err k => Err k end
   | Err k => Err k
   end.
-Proof. intros Hb H. unfold otfad_encrypt_image, U1K. apply (grid_address_only_l _ 1024 q); [lia | exact Hb | exact H]. Qed.
+Proof. intros H. unfold otfad_encrypt_image, U1K. apply (grid_address_only_l _ 1024); [lia | exact H]. Qed.
 
 Lemma otfad_hw_block_outside (E : cipher) blobs swap a c :
   Forall kb_wf blobs -> blobs_disjoint blobs -> otfad_outside blobs a ->
@@ -1621,14 +1647,14 @@ Proof.
   - constructor; constructor.
 Qed.
 
-Lemma bee_address_only_l (E : cipher) ohs base x y q :
-  base mod 1024 = 0 -> length x = (q * 1024)%nat ->
+Lemma bee_address_only_l (E : cipher) ohs base x y :
+  (base + zlen x) mod 1024 = 0 ->
   bee_export_image E ohs (x ++ y) base =
   match bee_export_image E ohs x base with
   | Ok cx => match bee_export_image E ohs y (base + zlen x) with Ok cy => Ok (cx ++ cy) | Err k => Err k end
   | Err k => Err k
   end.
-Proof. intros Hb H. unfold bee_export_image, U1K. apply (grid_address_only_l _ 1024 q); [lia | exact Hb | exact H]. Qed.
+Proof. intros H. unfold bee_export_image, U1K. apply (grid_address_only_l _ 1024); [lia | exact H]. Qed.
 
 (* ================================================================== BEE / IEE key material: crypto layer ==== *)
 Lemma zeros_wf k : wf_bytes (zeros k).
@@ -1813,14 +1839,13 @@ Qed.
 Lemma otfad_decrypts_aes_l blobs swap img base :
   Forall kb_wf blobs -> blobs_disjoint blobs ->
   (forall k, In k blobs -> length (kb_key k) = 16%nat /\ wf_bytes (kb_key k)) ->
-  0 <= base -> base mod 1024 = 0 ->
-  (forall k, In k blobs -> kb_end k mod 1024 = 0 -> kb_end k <> base + zlen img - 1) ->
+  0 <= base -> base mod 16 = 0 ->
   exists out, otfad_encrypt_image aes_c blobs img base swap = Ok out /\
               (length img <= length out)%nat /\
               firstn (length img) (otfad_hw aes_c (map octx_of_blob blobs) swap base out) = img /\
               (forall i, (i < length img)%nat -> otfad_outside blobs (base + Z.of_nat i) -> nth i out 0%N = nth i img 0%N).
 Proof.
-  intros W D HK Hb Hal Hx. apply otfad_decrypts_aligned; try assumption.
+  intros W D HK Hb Hal. apply otfad_decrypts_l; try assumption.
   intros k Hin x Hx'. destruct (HK k Hin) as [Lk Wk].
   assert (Hok : aes_key_ok (kb_key k) = true) by (unfold aes_key_ok; rewrite Lk; reflexivity).
   now apply (aes_cipher_laws (kb_key k) Hok Wk).
@@ -1860,3 +1885,29 @@ Example flashenc_constants_tied :
   src_bee_version = 1442906112 /\ src_bee_fac_regions = 4 /\ src_bee_prdb_size = 256 /\ src_bee_prdb_offset = 128 /\
   src_bee_header_size = 512.
 Proof. repeat split; reflexivity. Qed.
+
+(* bypass mode = data left as they are *)
+Lemma iee_bypass_identity_l (E : cipher) b img base :
+  ib_wf b -> ib_mode b = MODE_BYPASS -> 0 <= base -> base mod 4096 = 0 ->
+  ib_start b <= base -> base + zlen img <= ib_end b ->
+  iee_encrypt_image E [b] img base = Ok img.
+Proof.
+  intros Wb Hm Hb Hal Hs He.
+  assert (Gok : forall a p, a mod 4096 = 0 /\ ib_start b <= a -> p <> [] -> (length p <= 4096)%nat ->
+                 a + zlen p <= base + zlen img -> (length p = 4096%nat \/ a + zlen p = base + zlen img) -> True ->
+                 exists c, iee_piece E [b] a p = Ok c /\ c = p).
+  { intros a p [A1 A2] Hp Hl Htop _ _. exists p. split; [|reflexivity].
+    unfold iee_piece. cbn [blob_fold].
+    assert (HL : 1 <= zlen p) by (unfold zlen; destruct p; [congruence | simpl length; lia]).
+    replace (ib_matches b a (a + zlen p)) with true.
+    + unfold ib_encrypt_image. replace (a mod 16 =? 0) with true by (symmetry; apply Z.eqb_eq; lia).
+      cbn [negb]. rewrite Hm, Z.eqb_refl. now rewrite skipn_all, app_nil_r.
+    + symmetry. unfold ib_matches, ib_contains. rewrite !andb_true_iff, !Z.leb_le. lia. }
+  assert (Hstep : forall a, a mod 4096 = 0 /\ ib_start b <= a ->
+                  (a + Z.of_nat 4096) mod 4096 = 0 /\ ib_start b <= a + Z.of_nat 4096) by (intros a [A1 A2]; split; lia).
+  destruct (walk_induction (iee_piece E [b]) 4096 (fun a => a mod 4096 = 0 /\ ib_start b <= a) (base + zlen img)
+              (fun _ p c => c = p) (fun _ d o => o = d) (fun _ => True) ltac:(auto) ltac:(auto) ltac:(lia) Hstep Gok)
+    with (fuel := length img) (base := base) (data := img) as (out & Ho & HP).
+  all: try (intros; subst; reflexivity); try lia; try exact I; try (split; assumption).
+  subst out. exact Ho.
+Qed.
